@@ -847,7 +847,13 @@ func c08Labels(c *Ctx) {
 							form = "all"
 						}
 					case *ssa.Slice:
-						if isAll(x.X) && x.High == nil && x.Max == nil {
+						wholeHigh := x.High == nil
+						if x.High != nil {
+							if lx, cc, ok := lenMinus(x.High); ok && cc == 0 {
+								wholeHigh = (&boundsCtx{fn: fn}).sameSeq(lx, x.X)
+							}
+						}
+						if isAll(x.X) && wholeHigh && x.Max == nil {
 							switch {
 							case x.Low == nil:
 								form = "all"
